@@ -1385,16 +1385,41 @@ fn mt935_fields() -> Model {
 
 fn n92(mt: &'static str, code: &'static str) -> Model {
     let base = body_of(mt, ":20:REF1\n:21:REL1\n:11S:1032506150123456789\n:79:CANCELLATION REQUEST");
-    let dims = vec![("79", s(&["present", "absent"]))];
+    // field 79: absent, free text, each documented cancellation reason as /CODE/, other four-character code
+    // words, a code word of another length, a code word that is not on the first line
+    let mut f79: Vec<String> = s(&["free-text", "absent"]);
+    for c in ["AGNT", "AM09", "COVR", "CURR", "CUST", "CUTA", "DUPL", "FRAD", "TECH", "UPAY"] {
+        f79.push(format!("/{c}/"));
+    }
+    for c in ["/ABCD/", "/DUPX/", "/dupl/", "/DUP/", "/DUPLI/", "second-line:/ABCD/", "/DUPL/+second-line:/ABCD/"] {
+        f79.push(c.to_string());
+    }
+    let dims = vec![("79", f79)];
     let render = move |l: Labels| -> Value {
         let mut j = base.clone();
-        if l[0] == "absent" {
-            j.as_object_mut().unwrap().remove("79");
+        match l[0] {
+            "absent" => {
+                j.as_object_mut().unwrap().remove("79");
+            }
+            "free-text" => {}
+            "second-line:/ABCD/" => j["79"] = fj("Field79", "SOME TEXT\n/ABCD/MORE"),
+            "/DUPL/+second-line:/ABCD/" => j["79"] = fj("Field79", "/DUPL/TEXT\n/ABCD/MORE"),
+            x => j["79"] = fj("Field79", &format!("{x}REASON TEXT")),
         }
         j
     };
-    let expected = move |l: Labels| -> BTreeSet<String> { if l[0] == "absent" { set(&[code]) } else { BTreeSet::new() } };
-    Model { mt, dims, render: Box::new(render), expected: Box::new(expected), modelled: vec![code] }
+    let expected = move |l: Labels| -> BTreeSet<String> {
+        let mut e = BTreeSet::new();
+        if l[0] == "absent" {
+            e.insert(code.to_string());
+        }
+        // a four-character code word at the start of the first line must be one of the documented reasons
+        if ["/ABCD/", "/DUPX/", "/dupl/"].contains(&l[0]) {
+            e.insert("T47".to_string());
+        }
+        e
+    };
+    Model { mt, dims, render: Box::new(render), expected: Box::new(expected), modelled: vec![code, "T47"] }
 }
 
 /// MT292 / MT296: field 79 and / or a copy of fields of the original message
